@@ -313,6 +313,46 @@ def check(ctx):
             " ".join(names), " ".join("(" + " ".join(map(str, a)) + ")" for a in arrays),
             " ".join("(%s %s)" % (c[0], sx(c[1])) if c[0] == "raw" else "(%s %s %s)" % (c[0], sx(c[1]), sx(c[2])) for c in conds),
             sx(body)), real_ans(k, v), text))
+    # ---- generator variables are LOCAL and shadowing is undone exactly: an outer binding of the same name — whatever its value,
+    # also 0, an empty array, a string — is back afterwards; nested comprehensions reusing a name see the right value at each level
+    shadow = [
+        ("x = 0; {x*x : x in 1..3}; x", "0"), ("x = {}; {x : x in 1..2}; size(x)", "0"), ("x = 7; {x : x in 1..2}; x", "7"),
+        ("n = 0; {n*n : n in 1..3}; sum({k + n : k in 1..3})", "6"), ("n = 7; {n*n : n in 1..3}; sum({k + n : k in 1..3})", "27"),
+        ("{sum({x : x in 1..2}) + x : x in 0..2}", "{3, 4, 5}"), ("{sum({x : x in 1..2}) + x : x in 1..3}", "{4, 5, 6}"),
+        ("{x : x in -1..1, size({x : x in 1..3}) == 3, x <= 0}", "{-1, 0}"),
+        ("{size({a : a in 1..2}) + size(a) : a in {{1}, {}, {1, 2}}}", "{3, 2, 4}"),
+        ("x = 0; y = {}; {x + y : x in 1..2, y in 3..4}; {x, size(y)}", "{0, 0}"),
+        ("x = 3; {{x : x in 1..y} : y in 1..2}; x", "3"), ("s = \"\"; {s : s in 1..2}; s", ""),
+        ("t = 0*3!; {t : t in {5}}; t + 1", "1"), ("x = 0; {x : x in {}}; x", "0"),
+    ]
+    for text, want_out in shadow:
+        r = R.execute(text)
+        ctx.count(text, bucket="compr/shadowing")
+        got = r["out"].strip().split("\n")[-1] if r["status"] == 0 and not r["escaped"] else "status %s %s %s" % (r["status"], r["escaped"] or "", r["err"].strip()[:80])
+        if got != want_out:
+            ctx.violation("compr-shadow:" + text, text, want_out, got, "execute(%r)" % text)
+    for _ in range(ctx.n(150, 2500)):
+        # random: bind some names to values of several kinds, run a comprehension that reuses some of them, compare all bindings
+        env = R.new_env()
+        nm = rng.sample(["x", "y", "k", "n"], rng.randrange(1, 4))
+        binds = {v_: rng.choice(["0", "{}", "7", "1/2", "0.0", "{0}", "\"\"", "3 m", "0 m"]) for v_ in nm}
+        for v_, t_ in binds.items():
+            R.execute("%s = %s" % (v_, t_), env=env)
+        before = {v_: repr(R.value(v_, env=env)) for v_ in nm}
+        gens = rng.sample(["x", "y", "k", "n"], rng.randrange(1, 3))
+        inner = rng.choice(["", "", " + size({%s : %s in 1..2})" % (gens[0], gens[0])])
+        text = "{%s%s : %s}" % (" + ".join(gens), inner, ", ".join("%s in %d..%d" % (g_, rng.randrange(0, 2), rng.randrange(1, 4)) for g_ in gens))
+        r = R.execute(text, env=env)
+        ctx.count("shadow:" + text + str(sorted(binds.items())), bucket="compr/shadowing-random")
+        after = {v_: repr(R.value(v_, env=env)) for v_ in nm}
+        stray = [g_ for g_ in gens if g_ not in nm and g_ in env._variables]
+        if after != before or stray or r["escaped"] or r["status"] != 0:
+            ctx.violation("compr-shadow:" + "; ".join("%s = %s" % kv for kv in sorted(binds.items())) + "; " + text,
+                          "; ".join("%s = %s" % kv for kv in sorted(binds.items())) + "; " + text,
+                          "status 0, every outer binding unchanged, no generator name left bound",
+                          "status %s %s; changed: %s; left bound: %s" % (r["status"], r["escaped"] or r["err"].strip()[:60],
+                                                                       [v_ for v_ in nm if after[v_] != before[v_]], stray),
+                          "one EvalEnvironment: the assignments, then execute(%r), then read the variables" % text)
     # a generator whose value is not an array
     for text in ("{x : x in 5}", "{x : x in 1..3, y in 2}", "{1 : 2 > 1}"):
         k, v = R.value(text)
